@@ -407,15 +407,39 @@ def c09(ctx):
             if len(ctx.samples) < 2:
                 ctx.sample({"binding": "B3", "fen": f, "depth": r["depth"], "schedules_run": len(r["outcomes"]), "distinct_answers": len(outs)})
     # validate the recorded linearised traces against the cache actions
-    def val(i_out):
-        i, out, _ = i_out
-        flat = ctx.path("flat_%d.ndjson" % i)
-        n, runs = flatten_schedules(out, flat)
+    def val(chunk):
+        n, runs, flat = chunk
         r = tlc.run("Trace_Search", "Trace_Search.cfg", env={"TRACE": flat}, workers=1, want_records=True, heap="2g", young="400m", stack="64m", timeout=7200)
+        os.unlink(flat)
         return n, runs, r
 
-    with ThreadPoolExecutor(max_workers=shards) as ex:
-        vals = list(ex.map(val, [r for r in results if r[0] != 99]))
+    # every search starts with an empty cache: the traces are cut at search boundaries into pieces of at most
+    # ~120 000 events, each validated by its own TLC (a trace of several 100 000 events exhausts TLC)
+    chunks = []
+    for i, out, _ in [r for r in results if r[0] != 99]:
+        flat = ctx.path("flat_%d.ndjson" % i)
+        n, runs = flatten_schedules(out, flat)
+        part, pn, pr, k = None, 0, 0, 0
+        with open(flat) as fi:
+            for line in fi:
+                if line.startswith('{"ev": "Begin"') and (part is None or pn > 120000):
+                    if part is not None:
+                        part.close()
+                        chunks.append((pn, pr, pname))
+                    pname = ctx.path("flat_%d_%d.ndjson" % (i, k))
+                    part = open(pname, "w")
+                    k += 1
+                    pn = pr = 0
+                if line.startswith('{"ev": "Begin"'):
+                    pr += 1
+                part.write(line)
+                pn += 1
+        if part is not None:
+            part.close()
+            chunks.append((pn, pr, pname))
+        os.unlink(flat)
+    with ThreadPoolExecutor(max_workers=6) as ex:
+        vals = list(ex.map(val, chunks))
     diags = {}
     for n, runs, r in vals:
         if r.postcondition_failed or r.distinct != n + 1:
